@@ -1,6 +1,6 @@
 #!/bin/sh
 # usage: tools/try_seed.sh <patch.diff> <check id> [extra args]  -- apply a seeded change to /repo, run the check, always undo
-patch="$1"; id="$2"; shift 2
+patch="$(realpath "$1")"; id="$2"; shift 2
 git -C /repo diff --quiet || { echo "/repo has local modifications"; exit 2; }
 git -C /repo apply "$patch" 2>/dev/null || (cd /repo && patch -p1 -F 5 -s --no-backup-if-mismatch < "$patch") || { echo "patch does not apply"; git -C /repo checkout -- .; exit 2; }
 VERIF_NO_EVIDENCE=1 /verif/check "$id" "$@"; rc=$?
